@@ -31,7 +31,12 @@ LEVEL_TEXT = ("Lean 4 theorems over a chunk-metadata model of a pipeline languag
               "sum of the chunks and the blocks tile the result), with per-operation lemmas (`elemwise_axis_ok`, "
               "`concat_axis_ok`, …). dtype and the operations outside the modelled set (slicing, reshape, rechunk, pad, …) "
               "are VALIDATED: random pipelines over the whole pool with every block computed separately, reassembled and "
-              "compared with NumPy (shape, dtype, values).")
+              "compared with NumPy (shape, dtype, values), with graph optimisation on and off. `fuse_slice_index_map`: for "
+              "all non-negative slices a (positive step), b, all lengths n and positions j, element j of x[a][b] and of "
+              "x[fuse_slice(a, b)] come from the same source position (and end together), so the getitem chains that the "
+              "array optimiser fuses return blocks of unchanged length; fuse_slice is diffed against the model and chains of "
+              "2-3 basic slices (steps 1-3, explicit stops inside the selection, integer indices) are computed optimised / "
+              "unoptimised / per block.")
 LEVEL_NOTE = ("Trusted: Lean kernel + standard axioms; the metadata model tied by a function-level diff of lazy chunks; the "
               "shape behaviour of the per-block NumPy kernels (broadcasting, transpose, sum, expand_dims, concatenate) is "
               "assumed as stated in the model; dtype inference (compute_meta) is oracle-only.")
@@ -175,6 +180,11 @@ def _check_blocks(ctx, d, x, what, maxblocks=24):
         ctx.fail(what + ": computed values differ from NumPy", observed=full.tolist() if full.size < 30 and x.dtype.kind in "biuf" else None,
                  expected=x.tolist() if x.size < 30 and x.dtype.kind in "biuf" else None)
         return False
+    # the same expression without graph optimisation (no blockwise fusion, no slice fusion, no linear fusion)
+    off = np.asarray(d.compute(scheduler="sync", optimize_graph=False))
+    if off.shape != full.shape or not (np.allclose(off, full, equal_nan=True) if x.dtype.kind in "fc" else np.array_equal(off, full)):
+        ctx.fail(what + ": optimised and unoptimised graphs compute different results", observed=list(full.shape), expected=list(off.shape))
+        return False
     grid = list(itertools.product(*[range(n) for n in d.numblocks]))
     sel = grid if len(grid) <= maxblocks else ctx.rng.sample(grid, maxblocks)
     starts = [U.cumsum0(c) for c in d.chunks]
@@ -287,19 +297,197 @@ def _known_sig(prog, e):
     return None
 
 
-CASES = {"modelled": case_modelled, "pipeline": case_pipeline}
+# ------------------------------------------------------------------------------------------------
+# fuse_slice (dask/array/optimization.py): function level against the model, and as an index map on a real list
+# ------------------------------------------------------------------------------------------------
+
+def _sl(s):
+    return slice(s[0], s[1], s[2])
+
+
+def _sl_canon(s):
+    """real slice -> [start, stop|None, step] with the Nones of start/step resolved"""
+    return [0 if s.start is None else int(s.start), None if s.stop is None else int(s.stop), 1 if s.step is None else int(s.step)]
+
+
+def case_fuseslice(ctx, inp):
+    from dask.array.optimization import fuse_slice
+    a, b, n = inp["a"], inp["b"], inp["n"]
+    xs = list(range(100, 100 + n))
+    sa = _sl(a)
+    na = [a[0] or 0, a[1], a[2] or 1]
+    if isinstance(b, int):
+        try:
+            r = fuse_slice(sa, b)
+        except NotImplementedError:
+            ctx.branch("fuse-int-negative")
+            return
+        m = ctx.lean(Sym("fuseslice"), na, b)
+        ctx.eq("fuse_slice(slice, int)", m, int(r))
+        if b < len(xs[sa]) and xs[sa][b] != xs[r]:
+            ctx.fail("x[a][i] != x[fuse_slice(a, i)]", observed=xs[r], expected=xs[sa][b])
+        ctx.branch("fuse-slice-int")
+        return
+    sb = _sl(b)
+    nb = [b[0] or 0, b[1], b[2] or 1]
+    r = fuse_slice(sa, sb)
+    m = ctx.lean(Sym("fuseslice"), na, nb)
+    ctx.eq("fuse_slice(slice, slice)", m, _sl_canon(r))
+    want = xs[sa][sb]
+    got = xs[r]
+    if got != want:
+        ctx.fail("x[a][b] != x[fuse_slice(a, b)] on a plain list", observed=got, expected=want)
+    # the model's index map of x[a][b] against Python
+    mc = ctx.lean(Sym("chainat"), n, na, nb, len(want) + 2)
+    ctx.eq("index map of x[a][b]", mc, [v - 100 for v in want] + [None, None])
+    if nb[2] > 1 and nb[1] is not None and (na[0] > 0 or na[2] > 1):
+        ctx.branch("outer-step>1-with-stop-after-partial-slice")
+    if na[2] > 1 and nb[2] > 1:
+        ctx.branch("both-steps>1")
+    if a[1] is not None and b[1] is not None:
+        ctx.branch("both-stops")
+    ctx.branch("fuse-slice-slice")
+
+
+def gen_fuseslice(rng):
+    n = rng.randint(0, 24)
+
+    def rs(m):
+        start = rng.choice([None, 0, rng.randint(0, max(0, m + 1))])
+        stop = rng.choice([None, rng.randint(0, m + 2), rng.randint(0, max(0, m // 2 + 1))])
+        step = rng.choice([None, 1, 2, 3, 4])
+        return [start, stop, step]
+    a = rs(n)
+    la = len(range(n)[_sl(a)])
+    b = rs(la) if rng.random() < 0.85 else rng.randint(0, max(0, la))
+    return {"a": a, "b": b, "n": n}
+
+
+# ------------------------------------------------------------------------------------------------
+# API level: chains of basic slices, graph optimisation ON (slices are fused) and OFF
+# ------------------------------------------------------------------------------------------------
+
+def _apply_chain(x, chain):
+    for idx in chain:
+        x = x[tuple(slice(*i) if isinstance(i, list) else i for i in idx)]
+    return x
+
+
+def case_slicechain(ctx, inp):
+    import numpy as np
+    import dask.array as da
+    shape = inp["shape"]
+    x = np.arange(int(np.prod(shape)), dtype="i8").reshape(shape) * 3 + 1
+    d = da.from_array(x, chunks=tuple(tuple(c) for c in inp["chunks"]))
+    ref = _apply_chain(x, inp["chain"])
+    r = _apply_chain(d, inp["chain"])
+    if tuple(r.shape) != ref.shape:
+        ctx.fail("chained slices: lazy shape differs from NumPy", observed=list(r.shape), expected=list(ref.shape))
+        return
+    on = np.asarray(r.compute(scheduler="sync"))
+    off = np.asarray(r.compute(scheduler="sync", optimize_graph=False))
+    if on.shape != tuple(r.shape):
+        ctx.fail("chained slices: computed shape (graph optimisation on) differs from the lazy shape",
+                 observed=list(on.shape), expected=list(r.shape))
+    if off.shape != tuple(r.shape):
+        ctx.fail("chained slices: computed shape (optimize_graph=False) differs from the lazy shape",
+                 observed=list(off.shape), expected=list(r.shape))
+    if on.shape == ref.shape and not np.array_equal(on, ref):
+        ctx.fail("chained slices: values differ from NumPy (graph optimisation on)")
+    if off.shape == ref.shape and not np.array_equal(off, ref):
+        ctx.fail("chained slices: values differ from NumPy (optimize_graph=False)")
+    if on.shape != off.shape or not np.array_equal(on, off):
+        ctx.fail("chained slices: optimised and unoptimised graphs disagree", observed=list(on.shape), expected=list(off.shape))
+    grid = list(itertools.product(*[range(k) for k in r.numblocks]))
+    starts = [U.cumsum0(c) for c in r.chunks]
+    delayed = r.to_delayed() if r.ndim else None
+    for idx in (grid if len(grid) <= 10 else ctx.rng.sample(grid, 10)):
+        want = tuple(c[i] for c, i in zip(r.chunks, idx))
+        sl = tuple(slice(st[i], st[i + 1]) for st, i in zip(starts, idx))
+        for how in ("blocks", "delayed"):
+            if r.ndim == 0:
+                b = on
+            elif how == "blocks":
+                b = np.asarray(r.blocks[idx].compute(scheduler="sync"))
+            else:
+                b = np.asarray(delayed[idx].compute(scheduler="sync"))
+            if b.shape != want:
+                ctx.fail(f"chained slices: a block computed via {how} does not have the shape .chunks declares",
+                         observed=[list(idx), list(b.shape)], expected=list(want))
+                return
+            if not np.array_equal(b, ref[sl]):
+                ctx.fail(f"chained slices: a block computed via {how} is not the slice of the result at its index", observed=list(idx))
+                return
+    # was the chain really fused into one getitem per block?
+    from dask.array.optimization import optimize
+    from dask.core import flatten
+    try:
+        opt = optimize(r.__dask_graph__(), list(flatten(r.__dask_keys__())))
+        if len(dict(opt)) <= max(1, len(grid)) * 2:
+            ctx.branch("getitems-fused")
+    except Exception:
+        pass
+    if any(isinstance(i, list) and (i[2] or 1) > 1 and i[1] is not None for idx in inp["chain"][1:] for i in idx):
+        ctx.branch("later-slice-step>1-with-explicit-stop")
+    if any(isinstance(i, int) for idx in inp["chain"] for i in idx):
+        ctx.branch("chain-with-integer-index")
+    ctx.branch("chain-len-%d" % len(inp["chain"]))
+
+
+def gen_slicechain(rng):
+    nd = rng.choice([1, 1, 2, 2, 3])
+    shape = [rng.randint(4, 14) if i < 2 else rng.randint(2, 4) for i in range(nd)]
+    chunks = [U.rand_comp(rng, s) if rng.random() < 0.6 else [s] for s in shape]
+    cur = list(shape)          # lengths of the axes still present
+    chain = []
+    for step_no in range(rng.choice([2, 2, 3])):
+        idx = []
+        new = []
+        for ax, ln in enumerate(cur):
+            t = rng.random()
+            if ln == 0 or t < 0.2:
+                idx.append([None, None, None])
+                new.append(ln)
+            elif t < 0.32 and len(cur) > 1 and ln > 0:
+                idx.append(rng.randrange(ln))            # integer index drops the axis
+            else:
+                st = rng.choice([1, 1, 2, 2, 3])
+                start = rng.choice([None, 0, rng.randint(0, max(0, ln - 1)), rng.randint(0, max(0, ln // 2))])
+                s0 = start or 0
+                # explicit stop strictly inside the selection most of the time
+                stop = rng.choice([None, rng.randint(s0, ln), rng.randint(s0, max(s0, ln - 1)), rng.randint(s0, max(s0, (s0 + ln) // 2))])
+                idx.append([start, stop, None if st == 1 and rng.random() < 0.5 else st])
+                new.append(len(range(ln)[slice(start, stop, st)]))
+        chain.append(idx)
+        cur = new
+        if not cur:
+            break
+    return {"shape": shape, "chunks": chunks, "chain": chain}
+
+
+CASES = {"modelled": case_modelled, "pipeline": case_pipeline, "fuseslice": case_fuseslice, "slicechain": case_slicechain}
 
 
 def generate(ctx):
     rng = ctx.rng
-    for _ in range(ctx.n(220, 2200)):
+    # the shapes of the fuse_slice defect class: partial slice, then a stepped slice with an explicit stop inside it
+    for a, b, n in (([5, 50, None], [2, 11, 2], 60), ([1, None, None], [None, 8, 2], 12), ([1, None, None], [0, 6, 2], 8),
+                    ([2, None, 2], [1, 3, 3], 20), ([0, 9, 3], [1, None, 2], 10)):
+        yield "fuseslice", {"a": a, "b": b, "n": n}
+    yield "slicechain", {"shape": [12], "chunks": [[12]], "chain": [[[1, None, None]], [[None, 8, 2]]]}
+    yield "slicechain", {"shape": [4, 9], "chunks": [[2, 2], [9]], "chain": [[3, [1, None, None]], [[2, 7, 2]]]}
+    for _ in range(ctx.n(400, 4000)):
+        yield "fuseslice", gen_fuseslice(rng)
+    for _ in range(ctx.n(80, 1100)):
+        yield "slicechain", gen_slicechain(rng)
+    for _ in range(ctx.n(170, 2200)):
         p, _sh = gen_modelled(rng, rng.randint(1, 5))
         yield "modelled", {"prog": p}
     # whole pool (zero-LENGTH dimensions allowed). Interior zero-length chunks such as (1, 0, 0) are generated only for the
     # blockwise family below: for the operations owned by other properties (reshape, reductions, slicing, …) they expose
     # per-operation defects that are reported to their owners (see notes/hlg.md), not C25 metadata defects.
     G = U.ProgGen(rng, POOL_W, leaf_dtypes=("i8", "f8", "i4", "bool", "f4"), maxdim=4, maxnd=3, allow_zero=True)
-    for _ in range(ctx.n(120, 1700)):
+    for _ in range(ctx.n(100, 1700)):
         p, _x = G.gen(rng.randint(2, 6))
         yield "pipeline", {"prog": p}
     G0 = U.ProgGen(rng, OWN_W, leaf_dtypes=("i8", "f8", "i4", "bool"), maxdim=4, maxnd=3, allow_zero=True, zero_chunks=0.2)
